@@ -135,6 +135,11 @@ class Primitive(Trimesh):
         kwargs.update(self.to_dict())
         # remove the type indicator, i.e. `Cylinder`
         kwargs.pop("kind")
+        # the serialized form leaves out attributes which only
+        # control the resolution of the mesh, i.e. `sections`
+        for key in self.primitive._defaults:
+            if key not in kwargs:
+                kwargs[key] = getattr(self.primitive, key)
         # create a new object with kwargs
         primitive_copy = type(self)(**kwargs)
 
